@@ -40,13 +40,35 @@ def find_entity(ctx):
     inner_adt = inner_f[0]["ty"].split("Arc<")[1].rstrip(">")
     E["inner_adt"] = inner_adt
     ia = ctx.facts.adts[inner_adt]
+    # the validator fields (length, identity, mtime) by type; they may sit in the inner record itself or one level down in
+    # a crate-local record embedded in it (field *paths*)
+    E["u64_paths"] = []
     for f in ia["variants"][0]["fields"]:
         if f["ty"] == "std::fs::File":
             E["file_f"] = f["name"]
         elif f["ty"] == "std::time::SystemTime":
-            E["mtime_f"] = f["name"]
-    E["u64_fields"] = [f["name"] for f in ia["variants"][0]["fields"] if f["ty"] == "u64"]
+            E["mtime_path"] = (f["name"],)
+        elif f["ty"] == "u64":
+            E["u64_paths"].append((f["name"],))
+        else:
+            sub = ctx.facts.adts.get(f["ty"].split("<")[0])
+            if sub and sub.get("local") and sub["kind"] == "struct":
+                for g in sub["variants"][0]["fields"]:
+                    if g["ty"] == "std::time::SystemTime":
+                        E["mtime_path"] = (f["name"], g["name"])
+                    elif g["ty"] == "u64":
+                        E["u64_paths"].append((f["name"], g["name"]))
+    if "mtime_path" not in E or "file_f" not in E or len(E["u64_paths"]) < 2:
+        raise FailClosed("file entity's inner record: file / mtime / two u64 fields not found (%r)" % sorted(E))
+    E["mtime_f"] = E["mtime_path"][-1]
+    E["u64_fields"] = [p[-1] for p in E["u64_paths"]]
     return E
+
+
+def fld(base, path):
+    for n in path:
+        base = ("field", base, n)
+    return base
 
 
 def r1_gate(ctx, E):
@@ -95,6 +117,22 @@ def r2_r3_step(ctx, E):
     step = steps[0]
     outs = ctx.px(step, inline=lambda c, d: True, key="all", max_depth=6)
     chunk_size = ctx.facts.consts.get("file::CHUNK_SIZE", {}).get("int")
+    # the two u64 components of the unfold state, by use: the step first compares them (nothing left?); the one the read is
+    # issued at is the current position S, the other the end En (whatever the state's shape: a Range in a tuple, a struct ..)
+    _ROLES.clear()
+    for o in outs:
+        eqs0 = [t for t, val in o.cons.known.items() if isinstance(t, tuple) and t[0] == "binop" and t[1] == "Eq" and
+                all(isinstance(x, tuple) and x[0] == "field" and TY.get(x, (64, False))[0] == 64 for x in (t[2], t[3]))]
+        pre0 = [e for e in o.events if e["k"] == "call" and e["callee"].get("path") == "libc::pread"]
+        if eqs0 and pre0:
+            a, b = eqs0[0][2], eqs0[0][3]
+            off = repr(pre0[0]["args"][3])
+            if repr(a) in off and repr(b) not in off:
+                _ROLES["S"], _ROLES["En"] = a, b
+            elif repr(b) in off and repr(a) not in off:
+                _ROLES["S"], _ROLES["En"] = b, a
+            if _ROLES:
+                break
     sites = CEN.census(ctx, outs, typelevel=_tl)
     for key, s in sorted(sites.items()):
         if s.failed:
@@ -114,13 +152,12 @@ def r2_r3_step(ctx, E):
         opt = agg_get(v, "0")
         # the (start, end) of the current state
         eqs = [(t, val) for t, val in o.cons.known.items() if isinstance(t, tuple) and t[0] == "binop" and t[1] == "Eq" and
-               isinstance(t[2], tuple) and isinstance(t[3], tuple) and t[2][0] == "field" and t[3][0] == "field" and {t[2][2], t[3][2]} == {"start", "end"}]
+               _ROLES and {t[2], t[3]} == {_ROLES["S"], _ROLES["En"]}]
         if not eqs:
             ctx.violation("C18.R2", "C18.R2|no-empty-test", "the unfold step does not compare start with end")
             continue
         t, val = eqs[0]
-        S = t[2] if t[2][2] == "start" else t[3]
-        En = t[3] if t[3][2] == "end" else t[2]
+        S, En = _ROLES["S"], _ROLES["En"]
         TY.setdefault(S, (64, False))
         TY.setdefault(En, (64, False))
         if val == 1:
@@ -176,11 +213,21 @@ def r2_r3_step(ctx, E):
                 if not z2.entails("Le", n, count):
                     bad.append("set_len(n) with n possibly above the capacity")
                 # next state
-                if not (is_agg(nxt) and is_agg(agg_get(nxt, "0"))):
+                def leaves(v_, d=0):
+                    if is_agg(v_) and d < 5:
+                        out_ = []
+                        for _, x_ in v_[4]:
+                            out_ += leaves(x_, d + 1)
+                        return out_
+                    return [v_]
+                lv = leaves(nxt) if isinstance(nxt, tuple) else []
+                if not is_agg(nxt):
                     bad.append("UNRECOGNISED next state %s" % short(nxt, 60))
                 else:
-                    rng = agg_get(nxt, "0")
-                    ns, ne = agg_get(rng, "start"), agg_get(rng, "end")
+                    # the next state keeps the end and moves the position: among its components there is the unchanged end,
+                    # and the position component is start + len(chunk) (the old position is not kept)
+                    ne = En if En in lv else next((x for x in lv if TY.get(x, (0,))[0] == 64 and x != mk_binop("Add", S, n)), None)
+                    ns = mk_binop("Add", S, n) if mk_binop("Add", S, n) in lv else (S if S in lv else next((x for x in lv if isinstance(x, tuple) and x[0] == "binop"), None))
                     if ne != En:
                         bad.append("next end %s differs from the current end" % short(ne, 40))
                     if ns != mk_binop("Add", S, n):
@@ -195,16 +242,19 @@ def r2_r3_step(ctx, E):
     ctx.floor("C18.R2", len(seen), 3, what="row kinds of the unfold step")
 
 
+_ROLES = {}
+
+
 def _tl(ev, o):
     """unfold state invariant start <= end: established by the callers (serve passes 0..len or a range satisfying RNG,
     C02.R1) and preserved by the step (next start = start + n with n <= count <= end - start, checked here)"""
     if ev["k"] == "assert" and ev["cond"][0] == "ovf":
         op, a, b = ev["cond"][1], ev["cond"][2], ev["cond"][3]
         from ..zone import Zone
-        if op == "Sub" and isinstance(a, tuple) and isinstance(b, tuple) and a[0] == "field" and b[0] == "field" and a[2] == "end" and b[2] == "start" and a[1] == b[1]:
+        if op == "Sub" and _ROLES and a == _ROLES["En"] and b == _ROLES["S"]:
             return "unfold state invariant start <= end"
-        if op == "Add" and isinstance(a, tuple) and a[0] == "field" and a[2] == "start":
-            En = ("field", a[1], "end")
+        if op == "Add" and _ROLES and a == _ROLES["S"]:
+            En = _ROLES["En"]
             TY.setdefault(En, (64, False))
             TY.setdefault(a, (64, False))
             cc = P.Cons()
@@ -236,10 +286,10 @@ def r4_validators(ctx, E, ctor):
         v = outs[0].value if len(outs) == 1 else None
         okk = False
         if m == "len":
-            okk = isinstance(v, tuple) and v[0] == "field" and v[1] == inner and v[2] in E["u64_fields"]
+            okk = any(v == fld(inner, p) for p in E["u64_paths"])
             lenf = v[2] if okk else None
         else:
-            okk = is_agg(v) and v[3] == "Some" and agg_get(v, "0") == ("field", inner, E["mtime_f"])
+            okk = is_agg(v) and v[3] == "Some" and agg_get(v, "0") == fld(inner, E["mtime_path"])
         if okk:
             ctx.ok("C18.R4", "%s() returns the field captured at construction" % m)
         else:
@@ -298,8 +348,15 @@ def r4_validators(ctx, E, ctor):
         if not is_agg(innerv):
             ctx.violation("C18.R4", "C18.R4|ctor", "UNRECOGNISED construction of the entity's inner record")
             continue
-        srcs = {n: repr(t) for n, t in innerv[4]}
-        okk = all(("Metadata" in srcs[f] or "metadata" in srcs[f].lower() or "param" in srcs[f]) for f in E["u64_fields"] + [E["mtime_f"]])
+        pxx = P.PX(ctx.facts)
+
+        def at(path):
+            vv = innerv
+            for nme in path:
+                vv = pxx.project(None, vv, ("f", nme))
+            return vv
+        srcs = {p[-1]: repr(at(p)) for p in E["u64_paths"] + [E["mtime_path"]]}
+        srcs[E["file_f"]] = repr(agg_get(innerv, E["file_f"]))
         meta = all("('param', 2)" in srcs[f] for f in E["u64_fields"] + [E["mtime_f"]])
         if meta and srcs[E["file_f"]] == repr(("param", 1)):
             ctx.ok("C18.R4", "length, identity and mtime are captured once from the supplied metadata; the file is the supplied file")
